@@ -32,12 +32,18 @@ class SrvCtx:
             if need not in self.structs: raise core.Inconclusive('layout of %s not found in the sources' % need)
         for need in ('WakerInterest', 'MioListener', 'MioStream', 'ServerCommand'):
             if need not in self.enums: raise core.Inconclusive('variants of %s not found in the sources' % need)
-        self.POLL_WITH = self.F('::poll_with'); self.WQ_WAKE = self.F('::wake', 'waker_queue.rs')
-        self.GET = self.F('::get_available'); self.AVAILABLE = self.F('::available', 'availability.rs')
-        self.GUARD = self.F('::guard', 'worker.rs'); self.TOTAL = self.F('::total', 'worker.rs:87')
-        self.ACCEPT_ONE = self.F('::accept_one'); self.SET_AVAIL = self.F('::set_available')
-        self.DEC = self.F('::dec', 'worker.rs:87'); self.INC = self.F('::inc', 'worker.rs:87')
-        self.OFFSET = self.F('::offset', 'availability.rs')
+        rx = Exec(self.fns, MODELS, self.structs, self.enums)
+        def M(ty, meth, tr=None):
+            f = rx.resolve((ty, tr, meth))
+            if f is None: raise core.Inconclusive('cannot locate %s::%s in the MIR dump of the mount crate' % (ty, meth))
+            return f
+        self.M = M
+        self.POLL_WITH = M('Accept', 'poll_with'); self.WQ_WAKE = M('WakerQueue', 'wake')
+        self.GET = M('Availability', 'get_available'); self.AVAILABLE = M('Availability', 'available')
+        self.GUARD = M('WorkerCounter', 'guard'); self.TOTAL = M('Counter', 'total')
+        self.ACCEPT_ONE = M('Accept', 'accept_one'); self.SET_AVAIL = M('Availability', 'set_available')
+        self.DEC = M('Counter', 'dec'); self.INC = M('Counter', 'inc'); self.OFFSET = M('Availability', 'offset')
+        self.WPOLL = M('ServerWorker', 'poll', 'Future')
 
     def F(self, suffix, contains=''):
         c = [f for n, f in self.fns.items() if n.endswith(suffix) and contains in n]
